@@ -53,7 +53,9 @@ def gen_sdl(rng):
         for i in range(rng.randint(0, 4)):
             args.append(f"a{i}: {type_ref()}")
         ret = rng.choice(["Item", "[Item!]!", "Shop", "Node", "Thing", "String", "Int!", "Boolean", "[Thing]"])
-        return f"  {name}" + (f"({', '.join(args)})" if args else "") + f": {ret}", bool(args)
+        # a deprecated root field is still a field of the API: offered, counted and testable like the others
+        deprecated = ' @deprecated(reason: "old")' if rng.random() < 0.2 else ""
+        return f"  {name}" + (f"({', '.join(args)})" if args else "") + f": {ret}{deprecated}", bool(args)
 
     # root types need not be called Query / Mutation, and a Subscription root type is never offered for testing
     custom_roots = rng.random() < 0.3
